@@ -1,6 +1,8 @@
 # -*- coding: utf-8 -*-
 from __future__ import unicode_literals
 
+import copy
+
 from clikit.api.formatter import Style
 
 
@@ -60,7 +62,7 @@ class BorderStyle:
 
             cls._none = style
 
-        return cls._none
+        return copy.copy(cls._none)
 
     @classmethod
     def ascii(cls):  # type: () -> BorderStyle
@@ -69,7 +71,7 @@ class BorderStyle:
 
             cls._ascii = style
 
-        return cls._ascii
+        return copy.copy(cls._ascii)
 
     @classmethod
     def solid(cls):  # type: () -> BorderStyle
@@ -96,4 +98,4 @@ class BorderStyle:
 
             cls._solid = style
 
-        return cls._solid
+        return copy.copy(cls._solid)
